@@ -6,7 +6,7 @@ from checks import modelbased
 MANIFEST = {
     "technique": "model-based property testing (Hypothesis): grouped stable-sort reference model (NaN first, missing last, coordinates for argsort) vs sort/argsort on generated physical encodings",
     "level_text": "Generated-input exploration: numeric/bool/NaN-containing arrays and string lists with duplicates, None leaves, empty lists, all list/option encodings x axis x ascending x stable; sort must equal the reference grouped sort (a two-directional check: ordered AND a permutation of each group, since the expected output is the sorted multiset itself) and argsort must equal the stable positions when stable=True; with stable=False argsort is checked for realising the sort output. Held on everything generated outside the recorded known findings.",
-    "level_note": "Trusted: akmodel.ops.sort, akmodel.decode, the /verif bridge. Missing lists at the sorted axis are outside the reference model (discarded, counted).",
+    "level_note": "Trusted: akmodel.ops.sort, akmodel.decode, the /verif bridge. Missing lists at the sorted axis are outside the reference model (discarded, counted). Besides the type-directed cases there are two added families: groups of 17-48 elements over a 3-4-value alphabet (stability beyond libstdc++'s insertion-sort threshold) and every numeric leaf dtype with values at the ends of its range.",
 }
 RULE = ("case = (physical description, sort|argsort, axis, ascending, stable); expected = akmodel.ops.sort on the decoded value; "
         "non-trivial = a sorted group has >= 2 elements and the result is non-empty; distinct by hash of the case")
